@@ -18,6 +18,7 @@ from pydantic import create_model
 from pydantic.fields import FieldInfo
 
 from pydjinni.config.config_model_builder import ConfigModelBuilder
+from pydjinni.exceptions import ConfigurationException
 from pydjinni.file.file_reader_writer import FileReaderWriter
 from pydjinni.file.processed_files_model_builder import ProcessedFilesModelBuilder
 from pydjinni.parser.ast import Record
@@ -96,6 +97,10 @@ class Target(ABC):
 
 
     def configure(self, config: ConfigModel):
+        for generator in self.generator_instances:
+            if getattr(config, generator.key, None) is None:
+                raise ConfigurationException(
+                    f"Missing configuration for 'generate.{generator.key}' (required by target '{self.key}')")
         metadata_model = create_model(
             "Metadata",
             __base__=MetadataBase,
